@@ -413,6 +413,42 @@ M("c04-string-loop-skips-last", "C04", "src/ckl/nodes.py",
   "for over a string of length >= 3 skips the last character")
 
 
+# ---- C05
+M("c05-finally-normal-only", "C05", "src/ckl/nodes.py",
+  '''            raise
+        finally:
+            for expression in self.finallyexprs:
+                expression.evaluate(environment)
+        return result''', '''            raise
+        for expression in self.finallyexprs:
+            expression.evaluate(environment)
+        return result''', "finally runs only when the block ends normally")
+M("c05-catch-first-clause", "C05", "src/ckl/nodes.py",
+  '''                if not err or e.value == err.evaluate(environment):
+                    return expr.evaluate(environment)''',
+  '''                if True:
+                    return expr.evaluate(environment)''',
+  "first catch clause handles every error")
+M("c05-swallow-unmatched", "C05", "src/ckl/nodes.py",
+  '''                if not err or e.value == err.evaluate(environment):
+                    return expr.evaluate(environment)
+            raise''', '''                if not err or e.value == err.evaluate(environment):
+                    return expr.evaluate(environment)
+            if self.catchexprs:
+                return NULL
+            raise''', "an error no clause matches is swallowed")
+M("c05-catch-by-rendering", "C05", "src/ckl/nodes.py",
+  '''                if not err or e.value == err.evaluate(environment):''',
+  '''                if not err or str(e.value) == str(err.evaluate(environment)):''',
+  "catch compares rendered text (1 vs 1.0 differ)")
+M("c05-error-value-stringified", "C05", "src/ckl/nodes.py",
+  '''        value = self.expression.evaluate(environment)
+        raise CklRuntimeError(value, value, self.pos)''',
+  '''        value = self.expression.evaluate(environment)
+        raise CklRuntimeError(value.asString(), value, self.pos)''',
+  "error raises the string form of its value")
+
+
 def run(cmd, cwd, env=None, timeout=3600):
     t0 = time.time()
     try:
